@@ -2,6 +2,8 @@ import Mimium.Proofs.Sched
 import Mimium.Proofs.SchedRun
 import Mimium.Proofs.SchedMore
 import Mimium.Model.SchedMem
+import Mimium.Proofs.SchedMem
+import Mimium.Gen.Sched
 /-!
 # C11 — scheduled tasks run exactly once at exactly their sample time
 
@@ -29,6 +31,13 @@ What is proved here (about `Model/Sched.lean`, a literal port of `scheduler.rs`,
 * `C11_vm_wasm_same_ticks`: for programs whose calls do not depend on the user state (commuting effects), both models
   execute the same multiset at every sample, whatever the two tie-breaking oracles;
 * `C11_*_self_reschedule_chain`: a closure that re-schedules itself `p ≥ 1` samples ahead runs at `t0, t0+p, t0+2p, …` in every run length.
+
+* `C11_source_shape`: the comparison / ordering sites the model ports are the ones found in /repo's source right now;
+* finding F17 — the last sentence of the statement is FALSE of the code: on WASM the closure handle is the address of a
+  record that is freed when the scheduling body returns, so a pending task can run another function.
+  `C11_wasm_closure_reuse_counterexample` proves the negation on a concrete program in the WASM model extended with that
+  memory (`Model/SchedMem.lean`); what remains true: `C11_wasm_queue_partial` (queue logic, handles assumed stable) and
+  `C11_wasm_mem_slot_consistent_partial` (memory included, programs whose `j`-th `@` of every body names one fixed function).
 
 Not proved (exercised by the correspondence only): `BinaryHeap`/`mpsc` themselves, closure retention
 (`resolve_closure`/`execute_closure`), the `f64 as u64` truncation (the driver uses `Float.toUInt64`, compared against
@@ -145,6 +154,24 @@ theorem C11_wasm_self_reschedule_chain {σ : Type} (env : Env σ) (ch : Nat → 
   obtain ⟨_, _, _, idl, _⟩ := W.run_spec env ch n s0 hf
   exact idl.chain a t0 p hp h0 hre k hk
 
+/-- Translator tie: the comparison / ordering sites re-extracted from /repo by `tools/extract.py` on every run are
+the ones `Model/Sched.lean` ports (`Ord for Task` on `when` only; due = `when <= now`; rejected = `when <= cur_time`
+resp. `when <= current_time`; `as u64`; drain → set time → pop; `on_sample` before dsp). A source edit at one of
+these sites breaks this theorem, and the correspondence then searches for a failing input. -/
+theorem C11_source_shape : Mimium.Gen.schedShape = [
+    ("taskOrd", "self.when.cmp(&other.when)"),
+    ("vmHeapType", "BinaryHeap<Reverse<Task>>"),
+    ("vmDue", "*when <= now"),
+    ("vmReject", "task.when <= self.cur_time"),
+    ("vmTrunc", "handle.get_arg_f64(0) as u64"),
+    ("wasmDue", "task.when <= now"),
+    ("wasmReject", "when <= s.current_time"),
+    ("wasmTrunc", "args[0] as u64"),
+    ("vmOnSampleOrder", "drain<setcur<pop"),
+    ("wasmOnSampleOrder", "setcur<drain"),
+    ("vmRunDspOrder", "on_sample<dsp"),
+    ("wasmRunDspOrder", "on_sample<dsp")] := rfl
+
 /-! ## Finding F17: on the WASM backend the property is false once closure records are taken into account
 
 `C11_wasm_exactly_once_on_time` is about the queue with closure handles that stay valid. The real WASM handle is the
@@ -189,7 +216,43 @@ theorem C11_wasm_queue_partial {σ : Type} (env : Env σ) (ch : Nat → Nat) (n 
   obtain ⟨st', e, l, idl, _⟩ := W.run_spec env ch n s0 hf
   exact ⟨by simp [e], l, idl⟩
 
+/-- The part that does hold of the WASM side *including* closure memory: if the `j`-th `@` of every body (task or
+dsp) always names the same function `slot j` (`Env.SlotConsistent`; e.g. each body re-schedules one fixed closure —
+the shape of all shipped scheduler fixtures), overwritten records are overwritten with what they already held, and the
+run is again that of an ideal scheduler: no panic, every sample executes exactly the functions scheduled for it, before
+dsp. For every priority-queue implementation meeting `HeapSpec` (so also for every tie oracle), every program state,
+every run length. -/
+theorem C11_wasm_mem_slot_consistent_partial {σ H : Type} (ops : HeapOps H) (toList : H → List Task)
+    (hs : HeapSpec ops toList) (env : Env σ) (slot : Nat → Nat) (n : Nat) (s0 : σ)
+    (hf : env.Future) (hc : env.SlotConsistent slot) :
+    (M.run ops env n s0).final.isSome ∧ (M.run ops env n s0).ticks.length = n ∧
+    Ideal env 0 (env.global s0).2 (env.global s0).1 (M.run ops env n s0).ticks ∧
+    ∀ (t : Nat) (ht : t < (M.run ops env n s0).ticks.length),
+      ((M.run ops env n s0).ticks[t]).execd.Perm
+        ((issuedBefore (M.run ops env n s0).greqs (M.run ops env n s0).ticks t).filter (fun x => decide (x.when = t))) := by
+  obtain ⟨st', e, l, g, idl⟩ := M.run_spec hs hf hc n s0
+  refine ⟨by simp [e], l, idl, ?_⟩
+  intro t ht
+  have := idl.onTime t ht
+  simpa [issuedBefore, g] using this
+
+/-- the abstract heap with any tie oracle is such an implementation -/
+theorem C11_oracle_heap_meets_spec (ch : Nat → Nat) : HeapSpec (oracleHeap ch) (fun h => h.1) :=
+  oracleHeap_spec ch
+
 /-! ## Non-vacuity -/
+
+/-- `counterEnv` (one self-rescheduling closure, like the fixtures) is slot consistent; `f17Env` is not (slot 0 gets
+function 0 from `t2` and function 1 from `t3`). -/
+example : counterEnv.SlotConsistent (fun _ => 0) :=
+  ⟨by intro id now s j hj; simp [counterEnv] at hj ⊢, by intro now s j hj; simp [counterEnv] at hj⟩
+example : ¬ ∃ slot, f17Env.SlotConsistent slot := by
+  rintro ⟨slot, h⟩
+  have h2 := h.task 2 0 () 0 (by simp [f17Env])
+  have h3 := h.task 3 0 () 0 (by simp [f17Env])
+  simp [f17Env] at h2 h3
+  omega
+
 
 /-- `counterEnv` = `scheduler_global_recursion.mmm`: premise holds, the chain theorem applies. -/
 example : counterEnv.Future :=
